@@ -103,10 +103,19 @@ func c12History(k int, s string) {
 		var b redact.StringBuilder
 		b.Printf("%7.2f %v", 1.5, redact.Safe(s))
 		_ = b.RedactableString()
+	// nested wrappers: every restorer must run, in order
+	case 19:
+		_ = redact.Sprintf("%v", redact.Safe(redact.Safe(s)))
+	case 20:
+		_ = redact.Sprint(redact.Safe(redact.Unsafe(s)))
+	case 21:
+		_ = redact.Sprintf("%v", redact.Unsafe(redact.Safe(s)))
+	case 22:
+		_ = redact.Sprint(redact.Unsafe(redact.Unsafe(redact.Unsafe(s))))
 	}
 }
 
-const nC12Histories = 19
+const nC12Histories = 23
 
 // c12Probe runs probe k and returns everything observable about it.
 func c12Probe(k int, s string) (out []byte) {
